@@ -53,7 +53,16 @@ pub fn scenario(seed: u64, pool: &[Enr], rep: &mut Report) {
         let cfg = ServiceCfg { mode: Mode::Ip4, tweak: Box::new(move |b| {
             b.max_nodes_response(max_nodes);
         }), local_enr_has_addr: rng.bool() };
+        // in a quarter of the cases the routing table's pending timeout is 40 ms instead of 60 s:
+        // a candidate that waits next to a free slot becomes due before the first request, and
+        // the request itself is then the first access to its bucket
+        let due_mode = rng.chance(1, 4);
+        if due_mode {
+            discv5::verif::set_pending_timeout(Some(std::time::Duration::from_millis(40)));
+        }
         let mut rig = ServiceRig::start(&mut rng, cfg).await;
+        discv5::verif::set_pending_timeout(None);
+        let mut due: Vec<(u64, Id, Vec<u8>)> = Vec::new();
         let local: Id = rig.local_id.raw();
         // ---- fill the table ----
         let ndist = 2 + rng.usize(5);
@@ -109,15 +118,37 @@ pub fn scenario(seed: u64, pool: &[Enr], rep: &mut Report) {
                 let r = rig.discv5.with_kbuckets(|t| t.write().insert_or_update(&kb::key(&key), enr.clone(), kb::status(true, false)));
                 if matches!(r, discv5::kbucket::InsertResult::Pending { .. }) {
                     rep.count("buckets_with_pending_candidate");
-                    if rng.bool() {
+                    if due_mode || rng.bool() {
                         let gone = in_bucket[rng.usize(in_bucket.len())];
                         let k = stored[gone].0;
                         if rig.discv5.with_kbuckets(|t| t.write().remove(&kb::key(&k))) {
                             stored.remove(gone);
                             rep.count("buckets_with_pending_candidate_and_free_slot");
+                            if due_mode {
+                                due.push((*d, key, rlp_ref::encode_record(&enr)));
+                            }
                         }
                     }
                 }
+            }
+        }
+        if due_mode && !due.is_empty() {
+            std::thread::sleep(std::time::Duration::from_millis(55));
+            // read-only look: is every such candidate still waiting next to its free slot? (if the
+            // process stalled between queueing it and freeing the slot, it was applied to the full
+            // bucket instead: this table is then not what the bookkeeping says, and is not used)
+            let as_planned = rig.discv5.with_kbuckets(|t| {
+                let t = t.read();
+                due.iter().all(|(d, _, rec)| t.buckets_iter().nth((*d - 1) as usize).map(|b| b.num_entries() == 15 && b.pending().map(|p| rlp_ref::encode_record(p.value()) == *rec).unwrap_or(false)).unwrap_or(false))
+            });
+            if !as_planned {
+                rep.count("due_candidate_setups_raced");
+                return;
+            }
+            // due now: whenever its distance is requested, the candidate is a table entry
+            for (_, key, rec) in due.drain(..) {
+                stored.push((key, rec));
+                rep.count("due_candidates_next_to_a_free_slot");
             }
         }
         let nreq = 6 + rng.usize(10);
